@@ -68,6 +68,10 @@ type caseSpec struct {
 	// attempt fails in the handshake and the helper's https->http fallback
 	// request is what reaches the server.
 	Fallback bool `json:"https_to_http_fallback,omitempty"`
+	// OptSeed decides the order in which the options are handed to Send (options
+	// are applied in argument order); OptionOrder is the resulting order.
+	OptSeed     int64    `json:"option_order_seed"`
+	OptionOrder []string `json:"option_order,omitempty"`
 }
 
 var bodyKinds = []string{"none", "bytes.Reader", "bytes.Buffer", "strings.Reader", "os.File", "seekable-custom", "nonseekable-custom"}
@@ -671,19 +675,29 @@ func (w *worker) runCase(c caseSpec) *result {
 	if c.KeepAlive {
 		base = w.trKA
 	}
-	opts := []httputil.SendOption{httputil.SendTransport(&recTransport{base: base, log: l})}
+	type namedOpt struct {
+		name string
+		opt  httputil.SendOption
+	}
+	var named []namedOpt
 	if c.Fallback {
 		// sets the scheme to https; the server only speaks plain HTTP
-		opts = []httputil.SendOption{httputil.SendTLSTransport(&recTransport{base: base, log: l}), httputil.EnableHTTPFallback()}
+		named = append(named, namedOpt{"tls-transport", httputil.SendTLSTransport(&recTransport{base: base, log: l})},
+			namedOpt{"enable-http-fallback", httputil.EnableHTTPFallback()})
+	} else {
+		named = append(named, namedOpt{"transport", httputil.SendTransport(&recTransport{base: base, log: l})})
 	}
 	if len(c.Headers) > 0 || c.ID%2 == 0 {
-		opts = append(opts, httputil.SendHeaders(c.Headers))
+		named = append(named, namedOpt{"headers", httputil.SendHeaders(c.Headers)})
 	}
 	if body != nil {
-		opts = append(opts, httputil.SendBody(body))
+		named = append(named, namedOpt{"body", httputil.SendBody(body)})
 	}
 	if c.Accepted != nil {
-		opts = append(opts, httputil.SendAcceptedCodes(c.Accepted...))
+		named = append(named, namedOpt{"accepted-codes", httputil.SendAcceptedCodes(c.Accepted...)})
+	}
+	if c.ID%3 == 0 {
+		named = append(named, namedOpt{"timeout", httputil.SendTimeout(60 * time.Second)})
 	}
 	if c.Retry {
 		var bo backoff.BackOff
@@ -696,7 +710,15 @@ func (w *worker) runCase(c caseSpec) *result {
 		if len(c.Extra) > 0 {
 			ro = append(ro, httputil.RetryCodes(c.Extra...))
 		}
-		opts = append(opts, httputil.SendRetry(ro...))
+		named = append(named, namedOpt{"retry", httputil.SendRetry(ro...)})
+	}
+	// options are applied in argument order: every permutation is a legal call
+	rand.New(rand.NewSource(c.OptSeed)).Shuffle(len(named), func(i, j int) { named[i], named[j] = named[j], named[i] })
+	var opts []httputil.SendOption
+	c.OptionOrder = nil
+	for _, no := range named {
+		opts = append(opts, no.opt)
+		c.OptionOrder = append(c.OptionOrder, no.name)
 	}
 	res := &result{spec: c, log: l, respSrvIdx: -1}
 	t0 := time.Now()
@@ -953,7 +975,7 @@ func TestC34(t *testing.T) {
 		"PRNG-generated scripted fault sequences for one httputil.Send call: method x URL(+query) x 0-4 headers x body kind "+
 			"(none, bytes.Reader, bytes.Buffer, strings.Reader, *os.File, seekable custom, non-seekable custom) x size 0 B-1 MiB x accepted set "+
 			"(default, with 201/202/204, with a default-retryable code) x back-off limit 0-5 (or no SendRetry) x extra retry codes x a server script of "+
-			"0..limit+2 faults (FIN/RST before or after the body was read, 429/502/503/504, extra code, non-retryable code, accepted code) + terminal answer x keep-alive. "+
+			"0..limit+2 faults (FIN/RST before or after the body was read, 429/502/503/504, extra code, non-retryable code, accepted code) + terminal answer x keep-alive x a random permutation of the option list handed to Send (options apply in argument order). "+
 			"A case is non-trivial when the helper made >= 2 attempts or its first answer was retry-provoking with a back-off limit >= 1; distinct = distinct case description.")
 	defer run.Finish()
 	run.Assume("net/http client transport and server are trusted to deliver/record request bytes faithfully; the recording RoundTripper hands a shallow request copy with a counting body to a stock http.Transport")
@@ -961,12 +983,14 @@ func TestC34(t *testing.T) {
 
 	r := run.Rand("cases")
 	rf := run.Rand("fallback")
+	ro := run.Rand("option-order")
 	n := run.N(900, 10000)
 	cases := make([]caseSpec, n)
 	for i := range cases {
 		cases[i] = genCase(r, i, run.Quick())
 		// drawn from its own stream so that the other dimensions of the case list stay what they were
 		cases[i].Fallback = rf.Intn(4) == 0
+		cases[i].OptSeed = ro.Int63()
 	}
 	tmp := ev.TempDir(t, "c34-")
 	const workers = 12
@@ -1033,6 +1057,23 @@ func TestC34(t *testing.T) {
 		run.Count("helper_attempts", int64(o.attempts))
 		run.Count("server_attempts", int64(o.srvAttempts))
 		run.Count("body_kind_"+c.BodyKind, 1)
+		ri, ai := -1, -1
+		for k, name := range c.OptionOrder {
+			if name == "retry" {
+				ri = k
+			}
+			if name == "accepted-codes" {
+				ai = k
+			}
+		}
+		if ri >= 0 && ai >= 0 {
+			if ri < ai {
+				run.Count("cases_retry_option_before_accepted_codes", 1)
+			} else {
+				run.Count("cases_accepted_codes_before_retry_option", 1)
+			}
+		}
+		run.Distinct("option_orders", strings.Join(c.OptionOrder, ">"))
 		if c.Fallback {
 			run.Count("cases_https_to_http_fallback", 1)
 			if o.attempts >= 2 && c.BodyKind != "none" && c.BodySize > 0 {
